@@ -1,18 +1,25 @@
 /-
-Model of `zepid.calc.utils.probability_bounds`: validation of the bound specification in the
-code's branch order, and the elementwise clip (value in, new value out).
+Model of `zepid.calc.utils.probability_bounds` (validation of the bound specification in the code's
+branch order, and the elementwise clip: value in, new value out) and of every place where an estimator
+applies it (`bound=` of IPTW, AIPTW, TMLE, StochasticTMLE, IPSW/AIPSW, GEstimationSNM, the four cross-fit
+classes): which fitted probabilities are clipped and how the clipped values become weights.  The weight
+formulas themselves are the *generated* `Gen.iptw_weight` / `Gen.ipsw_weight`.
 -/
 import ZepidVerif.Model.Core
+import ZepidVerif.Gen.Weights
 namespace ZV.Bounds
 
 /-- what the caller passed as `bounds` -/
 inductive BoundSpec (F : Type) where
-  | float (b : F)                 -- type(bounds) is float
+  | float (b : F)                 -- `isinstance(bounds, float)`: a Python float or numpy.float64
   | str                           -- a string
-  | int                           -- a Python int
-  | seq (items : List (Option F)) -- list / tuple / array; `none` = an element that is a string
+  | int                           -- a Python int (not bool)
+  | other                         -- any other object that cannot be indexed as a pair: bool, None, a numpy scalar
+                                  -- that is not a float subclass (`np.float32(0.1)[0]` raises IndexError)
+  | seq (items : List (Option F)) -- list / tuple / array / Series; `none` = an element that is a string
   deriving Repr
 
+section
 variable {F : Type} [Sub F] [NatCast F] [LT F] [LE F] [DecidableLT F] [DecidableLE F]
 
 /-- the branch order of `probability_bounds`; returns the interval (lo, hi) actually applied -/
@@ -22,6 +29,7 @@ def parseBound : BoundSpec F → Except Err (F × F)
     else .ok (b, ((1 : Nat) : F) - b)
   | .str => .error .badBound
   | .int => .error .badBound
+  | .other => .error .badBound
   | .seq (some lo :: some hi :: _) =>
     if lo > hi then .error .badBound
     else if lo < ((0 : Nat) : F) ∨ hi > ((1 : Nat) : F) then .error .badBound
@@ -40,4 +48,61 @@ def probabilityBounds (v : List F) (b : BoundSpec F) : Except Err (List F) :=
   | .error e => .error e
   | .ok (lo, hi) => .ok (clip lo hi v)
 
+/-- number of entries the clip changes (`StochasticTMLE._specified_bound_`, "No. Truncated") -/
+def truncCount (lo hi : F) (v : List F) : Nat := (v.filter fun x => decide (x < lo) || decide (x > hi)).length
+
+end
+
+/-! ### where the estimators apply the bound (one row at a time) -/
+section
+variable {F : Type} [Add F] [Sub F] [Mul F] [Div F] [Neg F] [NatCast F]
+  [LT F] [LE F] [DecidableLT F] [DecidableLE F] [DecidableEq F] [Transc F]
+
+/-- an estimator's `bound` argument: `none` = falsy (False / None / 0.0: no truncation), else the interval -/
+def applyB (iv : Option (F × F)) (x : F) : F :=
+  match iv with
+  | none => x
+  | some (lo, hi) => clip1 lo hi x
+
+/-- `if bound:` in the estimators: a falsy argument (False, None, 0.0, an empty list) means no truncation and
+    `probability_bounds` is not called; anything else is validated by `parseBound` -/
+def estimatorBound (falsy : Bool) (b : BoundSpec F) : Except Err (Option (F × F)) :=
+  if falsy = true then .ok none else
+  match parseBound b with
+  | .error e => .error e
+  | .ok iv => .ok (some iv)
+
+/-- `iptw_calculator` (IPTW.treatment_model, IPSW/AIPSW.treatment_model): denominator and numerator
+    probabilities are both clipped, then the weight formula; returns (`__denom__`, `__numer__`, weight).
+    With `stabilized=False` the numerator is the constant 1 (it is clipped too, but no formula reads it). -/
+def iptwRow (stab : Bool) (std : String) (iv : Option (F × F)) (a1 : Bool) (n d : F) : F × F × F :=
+  let d' := applyB iv d
+  let n' := applyB iv n
+  (d', n', Gen.iptw_weight stab std a1 n' d')
+
+/-- AIPTW / TMLE `exposure_model` and `missing_model`: g1 = clip p, g0 = clip (1 − p)  (for the missing model
+    the two probabilities are separate predictions, clipped separately: use `applyB` on each) -/
+def gPair (iv : Option (F × F)) (p : F) : F × F := (applyB iv p, applyB iv (((1 : Nat) : F) - p))
+
+/-- StochasticTMLE.exposure_model: the denominator of the weight of a row -/
+def stochDen (iv : Option (F × F)) (a1 : Bool) (p : F) : F :=
+  let p' := applyB iv p
+  if a1 = true then p' else ((1 : Nat) : F) - p'
+
+/-- cross-fit estimators: pa1 = clip p, pa0 = 1 − pa1 -/
+def cfPair (iv : Option (F × F)) (p : F) : F × F :=
+  let p' := applyB iv p
+  (p', ((1 : Nat) : F) - p')
+
+/-- IPTW.missing_model / GEstimationSNM.missing_model: only the denominator is clipped -/
+def ipmwRow (iv : Option (F × F)) (n d : F) : F := n / applyB iv d
+
+/-- IPSW.sampling_model: the denominator is clipped; the numerator only when the weights are stabilized (the
+    unstabilized numerator is the constant 1, not a fitted probability); then the (generated) sampling weight -/
+def ipswRow (gen stab : Bool) (iv : Option (F × F)) (numer denom : F) : F × F × F :=
+  let d' := applyB iv denom
+  let n' := if stab = true then applyB iv numer else numer
+  (d', n', Gen.ipsw_weight gen stab n' d')
+
+end
 end ZV.Bounds
